@@ -9,6 +9,7 @@ import (
 	"fmt"
 	"io"
 	"net"
+	"net/http"
 	"os"
 	"path/filepath"
 	"strconv"
@@ -67,6 +68,8 @@ type env struct {
 	ports [nTCP]int
 	resv  [nTCP]int // reservation sockets: bound with SO_REUSEPORT, never listening
 	upath [nUnix]string
+
+	backendAddr string // a plain HTTP server of the harness: the upstream of every config's reverse_proxy
 }
 
 // reservePort binds (but never listens on) a socket with SO_REUSEPORT|SO_REUSEADDR on
@@ -150,6 +153,18 @@ func newEnv() (*env, error) {
 			e.upath[i] = e.upath[ux0-nTCP] // same file, other network kind
 		}
 	}
+	bl, err := net.Listen("tcp", "127.0.0.1:0")
+	if err != nil {
+		return nil, err
+	}
+	e.backendAddr = bl.Addr().String()
+	go http.Serve(bl, http.HandlerFunc(func(w http.ResponseWriter, req *http.Request) { //nolint:gosec
+		if r := cur.Load(); r != nil {
+			r.serveBackend(w, req)
+			return
+		}
+		http.Error(w, "no case running", http.StatusServiceUnavailable)
+	}))
 	os.Setenv("XDG_DATA_HOME", filepath.Join(dir, "data"))
 	os.Setenv("XDG_CONFIG_HOME", filepath.Join(dir, "config"))
 	return e, nil
@@ -262,9 +277,15 @@ func classifyErr(err error) string {
 // get opens a fresh connection to address a, sends one HTTP/1.0 request and returns the
 // generation that answered (and the raw error text for failure reports).
 func (e *env) get(a int, path string, timeout time.Duration) (string, int, string) {
+	ans, g, detail, _ := e.getBody(a, path, timeout)
+	return ans, g, detail
+}
+
+// getBody is get, and also returns the response as received.
+func (e *env) getBody(a int, path string, timeout time.Duration) (string, int, string, string) {
 	c, err := e.dial(a, timeout)
 	if err != nil {
-		return classifyErr(err), -1, err.Error()
+		return classifyErr(err), -1, err.Error(), ""
 	}
 	defer c.Close()
 	c.SetDeadline(time.Now().Add(timeout))
@@ -277,16 +298,16 @@ func (e *env) get(a int, path string, timeout time.Duration) (string, int, strin
 		}
 	}
 	if _, err := io.WriteString(c, "GET "+path+" HTTP/1.0\r\nHost: "+host+"\r\n\r\n"); err != nil {
-		return classifyErr(err), -1, "write: " + err.Error()
+		return classifyErr(err), -1, "write: " + err.Error(), ""
 	}
 	b, err := io.ReadAll(c)
 	body := string(b)
 	i := strings.Index(body, "gen=")
 	if i < 0 {
 		if err != nil {
-			return classifyErr(err), -1, "read: " + err.Error()
+			return classifyErr(err), -1, "read: " + err.Error(), body
 		}
-		return ansBroken, -1, fmt.Sprintf("no marker in %d response bytes", len(b))
+		return ansBroken, -1, fmt.Sprintf("no marker in %d response bytes", len(b)), body
 	}
 	rest := body[i+4:]
 	j := 0
@@ -295,7 +316,7 @@ func (e *env) get(a int, path string, timeout time.Duration) (string, int, strin
 	}
 	g, convErr := strconv.Atoi(rest[:j])
 	if convErr != nil || !strings.HasPrefix(body, "HTTP/1.") || !strings.Contains(body[:i], " 200 ") {
-		return ansBroken, -1, "malformed response"
+		return ansBroken, -1, "malformed response", body
 	}
-	return genChar(g), g, ""
+	return genChar(g), g, "", body
 }
